@@ -79,6 +79,9 @@ class FnSpec:
     loopify: List[Tuple[str, int, str]] = field(default_factory=list)   # (method, ordinal, element type or ''): iterator chains rewritten by rules R15..R18
     folds: List[int] = field(default_factory=list)          # ordinals of `.fold(` calls rewritten by rule R14
     scans: List[int] = field(default_factory=list)          # ordinals of `.position(` calls rewritten by rule R13   # ordinals of `?` operators (or `all`) rewritten by rule R10
+    flatten: List[Tuple[int, str]] = field(default_factory=list)   # (ordinal of the `for`, field): `for &x in V.iter().flatten()` (rule R22)
+    nested_in: str = ""            # the fn is a nested item inside the body of this free function (rule R21)
+    hoist: List[str] = field(default_factory=list)   # nested fn items cut out of this body (each is emitted by its own `fn` block)
     no_canary: bool = False
     stub: str = ""                 # leaf whose body is not emitted (contract proved in another unit / body not compilable alone)
     attrs: List[str] = field(default_factory=list)
@@ -184,6 +187,14 @@ def parse(path: str) -> UnitSpec:
                 u.order.append(("fn", cur))
             elif head == "raw":
                 u.order.append(("raw", txt[len("raw"):].lstrip("\n ")))
+            elif head == "expect":
+                # expect fn IMPLHEADER :: NAME == BODY   -- the body of a /repo function must still read BODY (tokens), else undecided
+                m = re.match(r"^fn\s+(.*?)\s+==\s+(.*)$", rest, re.S)
+                if not m:
+                    raise SpecError(f"{path}:{ln}: bad expect")
+                q = m.group(1)
+                hdr, name = (q.rsplit(" :: ", 1) + [None])[:2] if " :: " in q else (None, q)
+                u.order.append(("expect", (src, hdr.strip() if hdr else None, name.strip(), m.group(2).strip())))
             elif head == "mode":
                 u.mode = rest
             elif head == "plainfn":
@@ -286,6 +297,13 @@ def parse(path: str) -> UnitSpec:
             cur.scans += [int(x) for x in rest.split()]
         elif head == "foreach":
             cur.foreach.append(int(rest))
+        elif head == "flatten":
+            a, b = rest.split()
+            cur.flatten.append((int(a), b))
+        elif head == "nested_in":
+            cur.nested_in = rest
+        elif head == "hoist":
+            cur.hoist += rest.split()
         else:
             raise SpecError(f"{path}:{ln}: unknown entry {head}")
     if not u.name:
